@@ -1,7 +1,7 @@
 (* C15 — property theorems only. M is `run true` over the tables of the source (Model.v + Interp.v), S is
    `run false` (Spec.v + Interp.v); the theorems over the tables regenerated on every run are in
    TableProofs.v. *)
-From C15 Require Import Model Spec Interp Corr IntProofs WordProofs Proofs.
+From C15 Require Import Model Spec Interp Corr IntProofs WordProofs EnglishProofs Proofs.
 
 (* ======== ~D ~B ~O ~X ~nR: "render any integer in the right base with the requested width, padding, sign
    and grouping" ======== *)
@@ -76,18 +76,41 @@ Theorem C15_ordinal_last_word : forall z ws, cardinal_words z = Some ws ->
   ordinal_words z = Some (removelast ws ++ [ordinal_word (last ws [])]).
 Proof. exact ordinal_last_word. Qed.
 Print Assumptions C15_ordinal_last_word.
-(* FULL statement wanted:  forall ordinal z, english_ok ordinal (Z.abs_N z) = true ->
-     go_english src_tables ordinal (dec_text z) = std_english ordinal z
-   (the loop of dirR writes the defined text wherever no group has a tens digit 2..9 with units 0, the 10^18 group is
-   zero, |z| < 10^66 and, for ordinals, the number does not end in 0 beyond 10..19).  PROVED ONLY as a bounded sweep by
-   kernel computation: for every n below 20000 and for 858 numbers spread over all magnitudes up to 10^67 (negative
-   ones included), cardinal and ordinal, the loop writes the defined text EXACTLY when english_ok holds. Beyond that the
-   loop is compared with the definition on every run (table sweep + random numbers up to 10^69). *)
-Theorem C15_english_loop_bounded_partial :
-  (sweep false 20 1000 = true /\ sweep true 20 1000 = true) /\
-  (forallb (english_agrees_z false) spread = true /\ forallb (english_agrees_z true) spread = true).
-Proof. exact (conj english_sweep_20000 english_spread). Qed.
-Print Assumptions C15_english_loop_bounded_partial.
+(* (6b) The loop of dirR (for _, trip := range cardinalTriples, three digits of the decimal text per round, the pop of
+   the scale word of an all-zero group, the ordinal tables in the first round only) writes, for EVERY integer, the
+   text of the definition wherever english_ok holds: no group of three digits has a tens digit 2..9 with a units digit 0
+   (finding C15-english-empty-word), the group of 10^18 is zero (C15-quantillion), |z| < 10^66
+   (C15-english-beyond-vigintillion) and, for ordinals, the number is 0 or ends in 01..19 or in a digit that is not 0
+   (C15-ordinal-of-round-number). By induction over the groups of three digits of the decimal text; the words of one
+   round are compared with the definition for all 22 x 1000 (scale, group value) pairs by kernel computation — the
+   domain of a group is finite. No bound on z. *)
+Theorem C15_english_loop : forall ordinal z, english_ok ordinal (Z.abs_N z) = true ->
+  go_english src_tables ordinal (dec_text z) = std_english ordinal z.
+Proof. exact english_loop. Qed.
+Print Assumptions C15_english_loop.
+(* (6c) ... and EXACTLY there: for every integer outside english_ok the loop writes a text that is not the defined one
+   (a word the definition never writes — the empty word, "quantillion" —, a cardinal where the ordinal is wanted, or a
+   text where the definition has none). So the four clauses of english_ok are each necessary: they are the four known
+   findings about the English writer, and there is no fifth. *)
+Theorem C15_english_loop_exact : forall ordinal z,
+  go_english src_tables ordinal (dec_text z) = std_english ordinal z <-> english_ok ordinal (Z.abs_N z) = true.
+Proof. exact english_loop_exact. Qed.
+Print Assumptions C15_english_loop_exact.
+(* (6d) What the loop writes for every integer but 0 and EVERY table (no guard): "negative" if z < 0, then the words of
+   the groups of three digits of |z| from the most significant one, each group as one round of the loop writes it (GL);
+   and the fact about decimal texts it rests on: the text of n >= 1000 is the text of n / 1000 followed by three digits. *)
+Theorem C15_english_loop_words : forall T colon z, z <> 0%Z ->
+  go_english T colon (dec_text z) =
+  Some (join [sp] ((if (z <? 0)%Z then [tx "negative"] else []) ++
+                   rev (GL T (t_triples T) (if colon then t_ordone T else t_one T) (if colon then t_ordteen T else t_teen T)
+                           (triples_of (Z.abs_N z))))).
+Proof. exact go_english_words. Qed.
+Print Assumptions C15_english_loop_words.
+Theorem C15_decimal_text_by_groups : forall n, (1000 <= n)%N ->
+  dec_text (Z.of_N n) = dec_text (Z.of_N (n / 1000)) ++
+                        [digit_char (n / 100 mod 10); digit_char (n / 10 mod 10); digit_char (n mod 10)].
+Proof. exact dec_text_1000. Qed.
+Print Assumptions C15_decimal_text_by_groups.
 
 (* ======== "consume and move through the arguments as specified" — for both M and S (any b), any control record,
    and any function `rec` in the place of the recursive call ======== *)
